@@ -41,7 +41,7 @@ Section Real.
     unfold trunc31, go_copy. apply bytes_ok_app.
     - apply Forall_forall. intros x X. apply in_firstn in X.
       pose proof (H_bytes p) as B. destruct (H p) as [|h t]; [destruct X|]. cbn in X.
-      inversion B; subst. eapply Forall_forall; eauto.
+      inversion B; subst. exact (proj1 (Forall_forall _ _) H3 x X).
     - apply Forall_forall. intros x X. apply in_skipn in X. apply repeat_spec in X. subst. lia.
   Qed.
 
@@ -92,7 +92,7 @@ Proof.
 Qed.
 
 Lemma x_distinct : leaves_distinct bool bool bool_dec xleaf x_hist x_g.
-Proof. intros r1 r2 k1 k2 v1 v2 Hne _ _ E. apply Hne. destruct k1, k2, v1, v2; cbn in E; congruence. Qed.
+Proof. intros r1 r2 k1 k2 v1 v2 Hne _ _ E. apply Hne. destruct k1, k2; try reflexivity; destruct v1, v2; inversion E. Qed.
 
 Lemma x_kv_old_ok : kv_old_ok bool bool bool_dec xclass x_hist x_g.
 Proof.
